@@ -13,9 +13,9 @@ def call(g, a, b, C):
             for v in ps[i + 1:]:
                 are_sigma_separated(partial, u, v, conditions=[])
                 are_sigma_separated(partial, u, v, conditions=[c for c in ps if c not in (u, v)])
-    gr = GG.to_y0(g, warm=warm)
+    gr = GG.to_y0(g, warm=warm, loose=True)
     before = GG.snapshot(gr)
-    out = bool(are_sigma_separated(gr, GG.V(a), GG.V(b), conditions=[GG.V(c) for c in C]))
+    out = bool(are_sigma_separated(gr, GG.V(a), GG.V(b), conditions=GG.present([GG.V(c) for c in C], (a, b))))
     return out, GG.snapshot(gr) != before
 
 
